@@ -20,6 +20,7 @@ func main() {
 	shards := flag.Int("shards", 0, "parallel shards (default: cores)")
 	out := flag.String("out", "", "result JSON path")
 	list := flag.Bool("list", false, "list streams")
+	nomodel := flag.Bool("nomodel", false, "run monitors only (model executable unavailable)")
 	flag.Parse()
 	if *list {
 		var names []string
@@ -37,6 +38,7 @@ func main() {
 		fmt.Fprintln(os.Stderr, "unknown stream", *stream)
 		os.Exit(2)
 	}
+	run.NoModel = *nomodel
 	res := run.Exec(s, *seed, *n, *shards)
 	if *out != "" {
 		if err := res.Write(*out); err != nil {
